@@ -23,6 +23,7 @@ PROFILE = {
     "placements": True,
     "multi_call": (1, 2),
     "handler_time": 0.3,
+    "offgrid_delays": 0.15,
 }
 ENTRIES = C.RETRY_ENTRIES + ["Retry.context.call", "AsyncRetry.context.call", "Policy.context.call", "AsyncRetryPolicy.context.call", "decorator.call", "adecorator.call", "Retry.from_config.call", "AsyncRetryPolicy.from_config.execute"]
 
@@ -48,6 +49,10 @@ def fix_placement(case: dict) -> dict:
 def check(case: dict) -> Verdict:
     v = Verdict()
     case = fix_placement(case)
+    if case.get("string_answers") and case["entry"].endswith(".call") and "decorator" not in case["entry"]:
+        # the handler answers with the plain strings "sleep"/"defer"/"abort" instead of SleepDecision members
+        # (SleepDecision is a str enum): the library must either refuse them (ValueError) or honour them fully
+        case = {**case, "calls": [{**c, "handler": ["str:" + d if not d.startswith("str:") else d for d in c["handler"]]} if c.get("handler") else c for c in case["calls"]]}
     env, cvs = C.run(case)
     out: list = []
     for cv in cvs:
@@ -99,7 +104,7 @@ PROP = Property(
         "consultations in a run, or an override conflict (both placements) with >= 1 consultation."
     ),
     streams=[
-        Stream("protocol", check, strategy=C.with_entry(gen.retry_case(PROFILE), ENTRIES), quick=12000, thorough=300000),
+        Stream("protocol", check, strategy=st.tuples(C.with_entry(gen.retry_case(PROFILE), ENTRIES), st.sampled_from([False] * 9 + [True])).map(lambda t: {**t[0], "string_answers": t[1]}), quick=12000, thorough=300000),
         Stream("placements_exhaustive", check, enum=enum_protocol, quick=1, thorough=1, exhaustive=True),
     ],
 )
